@@ -1,5 +1,6 @@
 import IbModel.Model.Window
 import IbModel.Proofs.Window
+import IbModel.Proofs.WindowEngine
 /-!
 # C13 — tumbling windows partition event time; window grouping loses nothing
 
@@ -22,9 +23,20 @@ partition list (`keyByWindowPar_eq`); composed corollaries for the engine's own 
 vs the sequential run, for every `n`: `keyByWindow_seq_eq_par`, `groupByWindow_seq_eq_par`,
 `groupByKeyAndWindow_seq_eq_par` (same rows up to hash-map row order, identical group contents).
 
+Part 3b: the keyed chain `attach_timestamps(..).key_by(..)` (`keyBy_attach_faithful`), the release-build corollaries
+(`groupByWindow_release`, `groupByWindow_release_garbage`), what the derived observations show
+(`groupByWindow_derived`: self-join through CoGroup, the sorted collectors), `Window::new` (`window_new_iff`,
+`tumble_new_ok`), and `window_decEq_is_eqImpl`: the key test of the model's hash maps is `impl PartialEq`.
+Part 4: the bespoke `groupPipeline` IS what the shared engine (`execSeq` / `execPar`), planner (`optimise`) and
+`group_by_key` (C04's `gbkNode`) models compute for the builders' plan (`window_gbk_is_C04`,
+`groupByWindow_engine`, `groupByKeyAndWindow_engine`).
+
 Which model is validated against what: see the header of `Model/Window.lean`.  `tumbleWrapping`,
 `Legacy.tumble` and `Legacy.tumbleWrapping` are compared with the real source text compiled under the
-corresponding arithmetic profile (`TUMBLE-WRAP`, `TUMBLE-LEGACY`, `TUMBLE-LEGACY-WRAP`).
+corresponding arithmetic profile (`TUMBLE-WRAP`, `TUMBLE-LEGACY`, `TUMBLE-LEGACY-WRAP`; the pre-fix text is the
+vendored `harness/chkwin/legacy_window.rs`).  When a source copy is unavailable the harness says so in the evidence
+(`VALIDATION INCOMPLETE …`, `validation:…=NOT-VALIDATED`) and the theorems of Part 2 / the `tumbleWrapping_*` /
+`*_release*` theorems are proved but not validated in that run.
 -/
 namespace IB.Window
 
@@ -165,6 +177,18 @@ theorem tumbleWrapping_garbage_on_none_domain (ts size off : Nat) (hsize : 1 ≤
   rw [tumble_complete ts size off _ hg hfit] at h
   cases h
 
+/-- the release build never panics for `size ≥ 1`, and its result is a pair of `u64`s -/
+theorem tumbleWrapping_total (ts size off : Nat) (hs : size ≠ 0) :
+    ∃ w, tumbleWrapping ts size off = some w ∧ w.stop < U64 := by
+  have hU : 0 < U64 := by decide
+  obtain ⟨k, hk⟩ : ∃ k, divFloorWrapping (wSub ts (off % size)) size = some k := by
+    unfold divFloorWrapping
+    simp only [hs, if_false]
+    split <;> exact ⟨_, rfl⟩
+  refine ⟨⟨wAdd (wMul k size) (off % size), wAdd (wAdd (wMul k size) (off % size)) size⟩, ?_, Nat.mod_lt _ hU⟩
+  unfold tumbleWrapping
+  simp only [hs, if_false, hk]
+
 /-- witnesses (kernel-evaluated): below the phase the release build wraps the start, at the top it
     wraps the end; `size = 0` panics in both builds (`offset_ms % 0`) -/
 example : tumble 3 10 5 = none ∧ tumbleWrapping 3 10 5 = some ⟨18446744073709551615, 9⟩ ∧
@@ -212,8 +236,49 @@ theorem fix_conservative (ts size off : Nat) (w : Window) (h : Legacy.tumble ts 
 /-! ## `Window` as a grouping key: `Eq` / `Hash` / `Ord` agree on `(start, end)` -/
 
 /-- `impl PartialEq`: equal iff both fields are equal (so `HashMap` keys are windows, not starts) -/
-theorem window_eq_iff (a b : Window) : a.eqImpl b = true ↔ a = b := by
-  cases a; cases b; simp [Window.eqImpl]
+theorem window_eq_iff (a b : Window) : a.eqImpl b = true ↔ a = b := Window.eqImpl_iff a b
+
+/-- the `DecidableEq Window` instance of the model — the key test of every association-list `HashMap` in
+    `groupByWindow` / `groupByKeyAndWindow` — IS `eqImpl`: the grouping theorems of Part 3 are about grouping with
+    the code's own `==` (the instance is built from `eqImpl` and the proof above; it does not exist without it) -/
+theorem window_decEq_is_eqImpl (a b : Window) : decide (a = b) = a.eqImpl b := by
+  cases h : a.eqImpl b
+  · exact decide_eq_false (fun hab => by rw [(window_eq_iff a b).mpr hab] at h; cases h)
+  · exact decide_eq_true ((window_eq_iff a b).mp h)
+
+/-- `Window::new(start, end)` (debug assertions on) returns exactly `[start, end)` and panics iff `end < start`;
+    the release build never panics and returns the same fields -/
+theorem window_new_iff (s e : Nat) (w : Window) :
+    (Window.new? s e = some w ↔ s ≤ e ∧ w = ⟨s, e⟩) ∧ (Window.new? s e = none ↔ e < s) ∧
+    Window.newRelease s e = ⟨s, e⟩ := by
+  unfold Window.new? Window.newRelease
+  refine ⟨?_, ?_, rfl⟩
+  · by_cases h : e ≥ s
+    · rw [if_pos h]
+      constructor
+      · intro hw; exact ⟨h, (Option.some.inj hw).symm⟩
+      · intro hw; rw [hw.2]
+    · rw [if_neg h]
+      constructor
+      · intro hw; cases hw
+      · intro hw; exact absurd hw.1 h
+  · by_cases h : e ≥ s
+    · rw [if_pos h]
+      constructor
+      · intro hw; cases hw
+      · intro hw; omega
+    · rw [if_neg h]
+      constructor
+      · intro _; omega
+      · intro _; rfl
+
+/-- every window `tumble` returns satisfies `Window::new`'s assertion (and the release constructor agrees) -/
+theorem tumble_new_ok (ts size off : Nat) (w : Window) (h : tumble ts size off = some w) :
+    Window.new? w.start w.stop = some w ∧ Window.newRelease w.start w.stop = w := by
+  have hs := tumble_sound ts size off w h
+  unfold Window.new? Window.newRelease
+  have : w.stop ≥ w.start := by omega
+  simp [this]
 
 /-- `impl Hash` is consistent with `Eq` (equal windows feed the hasher the same words), and the
     hashed words determine the window -/
@@ -437,6 +502,27 @@ theorem groupByWindow_element (size off : Nat) (parts : List (List (Timestamped 
     rw [h2 w]
     exact List.mem_map.mpr ⟨ev, List.mem_filter.mpr ⟨hev, by simp [hw]⟩, rfl⟩
 
+/-- the keyed variant: every `(key, event)` row lands in the group of its own key and window, which exists,
+    and the window contains the event's timestamp -/
+theorem groupByKeyAndWindow_element (size off : Nat) (parts : List (List (κ × Timestamped β)))
+    (gs : List ((κ × Window) × List β)) (h : groupByKeyAndWindow size off parts = some gs)
+    (kv : κ × Timestamped β) (hkv : kv ∈ parts.flatten) :
+    ∃ w, tumble kv.2.ts size off = some w ∧ (kv.1, w) ∈ gs.map Prod.fst ∧
+      kv.2.value ∈ groupOf (kv.1, w) gs ∧ w.start ≤ kv.2.ts ∧ kv.2.ts < w.stop := by
+  obtain ⟨_, h2, h3, _, _⟩ := groupByKeyAndWindow_exact size off parts gs h
+  cases hw : tumble kv.2.ts size off with
+  | none =>
+    have hk : keyWindowOf size off kv = none := by simp [keyWindowOf, hw]
+    have := (groupPipeline_none_iff (keyWindowOf size off) (fun kv : κ × Timestamped β => kv.2.value) parts).mpr
+      ⟨kv, hkv, hk⟩
+    unfold groupByKeyAndWindow keyWindowKey at h
+    rw [this] at h; cases h
+  | some w =>
+    have hs := tumble_sound _ _ _ _ hw
+    refine ⟨w, rfl, (h3 kv.1 w).mpr ⟨kv, hkv, rfl, hw⟩, ?_, hs.1, hs.2.1⟩
+    rw [h2 kv.1 w]
+    exact List.mem_map.mpr ⟨kv, List.mem_filter.mpr ⟨hkv, by simp [hw]⟩, rfl⟩
+
 /-- C13 (both execution modes / every partition count): `group_by_window` over two partitionings of the
     same event sequence (e.g. `[all]` = `collect_seq` and `exec_par`'s split into `n` chunks) panics
     for both or for neither, and otherwise yields the same set of windows with identical groups. -/
@@ -488,23 +574,152 @@ theorem timestamp_helpers_faithful {α : Type} (xs : List (Nat × β)) (ys : Lis
     (attachTimestamps f ys).map (fun ev => ev.ts) = ys.map f := by
   simp [toTimestamped, attachTimestamps, Function.comp_def]
 
+omit [DecidableEq κ] in
+/-- the idiomatic keyed chain `attach_timestamps(ts_fn).key_by(key_fn)` (helpers/timestamped.rs + helpers/keyed.rs):
+    one `(key_fn(ev), ev)` row per element, in order, `ev` carrying `ts_fn(t)` and the unchanged element — so the keyed
+    theorems apply to collections built this way with `kv.1 = key_fn ⟨ts_fn t, t⟩` -/
+theorem keyBy_attach_faithful {α : Type} (tsFn : α → Nat) (keyFn : Timestamped α → κ) (xs : List α) :
+    keyBy keyFn (attachTimestamps tsFn xs) = xs.map (fun t => (keyFn ⟨tsFn t, t⟩, ⟨tsFn t, t⟩)) ∧
+    (keyBy keyFn (attachTimestamps tsFn xs)).length = xs.length := by
+  simp [keyBy, attachTimestamps, Function.comp_def]
+
+/-- release build of the unkeyed helper (model-level corollary; only `Window::tumble` itself is compared with a
+    release compilation): whenever the overflow-checking pipeline returns a grouping, the release pipeline returns the
+    SAME grouping, for every partition list … -/
+theorem groupByWindow_release (size off : Nat) (parts : List (List (Timestamped β)))
+    (hts : ∀ ev ∈ parts.flatten, ev.ts < U64)
+    (gs : List (Window × List β)) (h : groupByWindow size off parts = some gs) :
+    groupByWindowRelease size off parts = some gs := by
+  unfold groupByWindow groupPipeline at h
+  unfold groupByWindowRelease groupPipeline
+  cases hm : mapAll (mapAll (windowKey size off)) parts with
+  | none => simp [hm] at h
+  | some kparts =>
+    simp only [hm, Option.map_some, Option.some.injEq] at h
+    have hflat := mapAll_flatten _ _ _ hm
+    -- element-wise: on the events of this input the release closure returns what the checked one returns
+    have key : ∀ p ∈ parts, ∀ (ys : List (Window × β)), mapAll (windowKey size off) p = some ys →
+        mapAll (windowKeyRelease size off) p = some ys := by
+      intro p hp ys hys
+      rw [mapAll_eq_some_iff] at hys ⊢
+      rw [← hys]
+      apply List.map_congr_left
+      intro ev hev
+      have hlt := hts ev (List.mem_flatten.mpr ⟨p, hp, hev⟩)
+      have hsome : ∃ r, windowKey size off ev = some r := by
+        have := congrArg (fun l => l.length) hys
+        cases hk : windowKey size off ev with
+        | some r => exact ⟨r, rfl⟩
+        | none =>
+          exfalso
+          have hn : mapAll (windowKey size off) p = none := (mapAll_eq_none_iff _ _).mpr ⟨ev, hev, hk⟩
+          rw [(mapAll_eq_some_iff _ _ _).mpr hys] at hn; cases hn
+      obtain ⟨r, hr⟩ := hsome
+      rw [hr]
+      unfold windowKey keyed windowOf at hr
+      unfold windowKeyRelease keyed
+      cases ht : tumble ev.ts size off with
+      | none => simp [ht] at hr
+      | some w =>
+        simp only [ht, Option.map_some, Option.some.injEq] at hr
+        have hw := tumbleWrapping_eq ev.ts size off w hlt ht
+        simp only [hw, Option.map_some, hr]
+    have : mapAll (mapAll (windowKeyRelease size off)) parts = some kparts := by
+      rw [mapAll_eq_some_iff] at hm ⊢
+      rw [← hm]
+      apply List.map_congr_left
+      intro p hp
+      cases hq : mapAll (windowKey size off) p with
+      | some ys => exact key p hp ys hq
+      | none =>
+        exfalso
+        have hn : mapAll (mapAll (windowKey size off)) parts = none :=
+          (mapAll_eq_none_iff _ _).mpr ⟨p, hp, hq⟩
+        rw [(mapAll_eq_some_iff _ _ _).mpr hm] at hn; cases hn
+    rw [this, Option.map_some, h]
+
+/-- … and where the checked pipeline panics (some event has no representable window, `size ≥ 1`) the release pipeline
+    does NOT panic: it returns a grouping in which that event sits under a window violating the property -/
+theorem groupByWindow_release_garbage (size off : Nat) (hsize : 1 ≤ size) (parts : List (List (Timestamped β)))
+    (h : groupByWindow size off parts = none) :
+    ∃ gs, groupByWindowRelease size off parts = some gs ∧
+      ∃ ev ∈ parts.flatten, ∃ w, tumbleWrapping ev.ts size off = some w ∧ w ∈ gs.map Prod.fst ∧
+        ¬ Good w ev.ts size off := by
+  obtain ⟨ev, hev, hnone⟩ := (groupByWindow_none_iff size off parts).mp h
+  obtain ⟨w, hw, _, hbad⟩ := tumbleWrapping_garbage_on_none_domain ev.ts size off hsize hnone
+  have hall : ∀ x ∈ parts.flatten, (fun e : Timestamped β => tumbleWrapping e.ts size off) x ≠ none := by
+    intro x _ hx
+    have hs : size ≠ 0 := by omega
+    obtain ⟨w', hw', _⟩ := tumbleWrapping_total x.ts size off hs
+    have hx' : tumbleWrapping x.ts size off = none := hx
+    rw [hw'] at hx'; cases hx'
+  cases hg : groupByWindowRelease size off parts with
+  | none =>
+    obtain ⟨x, hx, hxn⟩ := (groupPipeline_none_iff (fun e : Timestamped β => tumbleWrapping e.ts size off)
+      (fun e => e.value) parts).mp hg
+    exact absurd hxn (hall x hx)
+  | some gs =>
+    refine ⟨gs, rfl, ev, hev, w, hw, ?_, hbad⟩
+    exact ((groupPipeline_exact (fun e : Timestamped β => tumbleWrapping e.ts size off) (fun e => e.value)
+      parts gs hg).2.2.1 w).mpr ⟨ev, hev, hw⟩
+
+/-- what the harness's derived observations show of a grouping `gs` returned by `group_by_window`
+    (ops `gbwj`, `gbws`): joined with a second `group_by_window` of the same events (`join_inner`, the grouping running
+    inside the CoGroup sub-plans) every window appears exactly once, paired with its own group on both sides; collected
+    through the sorted collectors the rows are a permutation of `gs` in strictly ascending `impl Ord for Window` order -/
+theorem groupByWindow_derived (size off : Nat) (parts : List (List (Timestamped β)))
+    (gs : List (Window × List β)) (h : groupByWindow size off parts = some gs) :
+    joinInner gs gs = gs.map (fun g => (g.1, (g.2, g.2))) ∧
+    (sortByWindow gs).Perm gs ∧
+    (sortByWindow gs).Pairwise (fun a b => a.1.cmpImpl b.1 = .lt) := by
+  obtain ⟨hnd, _, _, _, _⟩ := groupByWindow_exact size off parts gs h
+  refine ⟨?_, List.mergeSort_perm _ _, ?_⟩
+  · unfold joinInner
+    apply flatMap_eq_map_of_singleton
+    intro a ha
+    rw [filter_key_of_nodup gs hnd a ha]
+    rfl
+  · have hle : ∀ a b c : Window × List β, (a.1.cmpImpl b.1 != .gt) = true → (b.1.cmpImpl c.1 != .gt) = true →
+        (a.1.cmpImpl c.1 != .gt) = true := by
+      intro a b c
+      obtain ⟨⟨a1, a2⟩, _⟩ := a; obtain ⟨⟨b1, b2⟩, _⟩ := b; obtain ⟨⟨c1, c2⟩, _⟩ := c
+      simp only [Window.cmpImpl, bne_iff_ne, ne_eq, Ordering.then_eq_gt, Nat.compare_eq_gt, Nat.compare_eq_eq]
+      omega
+    have htot : ∀ a b : Window × List β, ((a.1.cmpImpl b.1 != .gt) || (b.1.cmpImpl a.1 != .gt)) = true := by
+      intro a b
+      obtain ⟨⟨a1, a2⟩, _⟩ := a; obtain ⟨⟨b1, b2⟩, _⟩ := b
+      simp only [Window.cmpImpl, Bool.or_eq_true, bne_iff_ne, ne_eq, Ordering.then_eq_gt, Nat.compare_eq_gt,
+        Nat.compare_eq_eq]
+      omega
+    have hsorted := List.pairwise_mergeSort (le := fun a b : Window × List β => a.1.cmpImpl b.1 != .gt) hle htot gs
+    have hnd' : ((sortByWindow gs).map Prod.fst).Nodup := ((List.mergeSort_perm _ _).map Prod.fst).nodup_iff.mpr hnd
+    unfold sortByWindow at hnd' ⊢
+    -- distinct keys: "not greater" between distinct rows of a sorted list is "less"
+    have hpw := (List.pairwise_map.mp hnd').and hsorted
+    refine hpw.imp ?_
+    rintro a b ⟨hne, hle'⟩
+    cases hc : a.1.cmpImpl b.1 with
+    | lt => rfl
+    | eq => exact absurd ((window_cmp_eq_iff a.1 b.1).mp hc) hne
+    | gt => simp [hc] at hle'
+
 /-- `exec_par`'s source split is a partitioning of the input (so the theorems above apply to it) -/
 theorem sourceParts_flatten {α : Type} (xs : List α) (n : Nat) : (sourceParts xs n).flatten = xs := by
   have chunks : ∀ (fuel c : Nat) (ys : List α), 0 < c → ys.length ≤ fuel →
-      (chunksFuel fuel c ys).flatten = ys := by
+      (chunksOf c fuel ys).flatten = ys := by
     intro fuel
     induction fuel with
     | zero => intro c ys _ hl; have : ys = [] := List.length_eq_zero_iff.mp (by omega); subst this; rfl
     | succ f ih =>
       intro c ys hc hl
-      unfold chunksFuel
+      unfold chunksOf
       cases ys with
       | nil => rfl
       | cons y ys' =>
         simp only [List.isEmpty_cons, Bool.false_eq_true, if_false, List.flatten_cons]
         rw [ih c _ hc (by simp only [List.length_drop, List.length_cons] at hl ⊢; omega)]
         exact List.take_append_drop c (y :: ys')
-  unfold sourceParts splitVec
+  unfold sourceParts splitVec clampParts
   split
   · simp
   · rename_i hn
@@ -691,5 +906,77 @@ example : groupByWindow 10 25 [[⟨7, 70⟩, ⟨27, 71⟩], [], [⟨8, 70⟩]]
     = some [(⟨5, 15⟩, [70, 70]), (⟨25, 35⟩, [71])] := by decide
 
 end Windows
+
+/-! ## Part 4 — the same statements about the SHARED engine / planner / `group_by_key` models (C01–C08)
+
+`groupPipeline` above is a bespoke description of "a keyed `map` on every partition, then `group_by_key`".  The
+theorems of this part tie it to the models the other pipeline properties are proved about: `IB.execSeq` / `IB.execPar`
+(`Model/Engine.lean`, `runner.rs`), `IB.optimise` (`Model/Planner.lean`, `planner.rs`), `IB.gbkNode` = `gbkLocal` /
+`gbkMerge` (`Model/Closures.lean`, `helpers/keyed.rs::group_by_key`, the object of C04) and `IB.vecSplit`
+(`VecOpsImpl::split`).  Rows travel as `Val`s: a window is `P(I start, I end)` (`encW`, injective), an event
+`P(I ts, I value)` (`encEv`). -/
+
+open IB in
+/-- C13's association-list `group_by_key` IS C04's: for every injective key encoding (in particular `Window` and
+    `(K, Window)` keys) and every partition list, `Window.groupByKeyPar` maps, row by row and in the same order, to
+    `mergeGroups (parts.map groupRows)` — the list C04's theorems (`gbk_keys_nodup`, `gbk_values`, `gbk_contract`, …)
+    are about. -/
+theorem window_gbk_is_C04 {κ β : Type} [DecidableEq κ] (encK : κ → Val) (encV : β → Val)
+    (hinj : Function.Injective encK) (parts : List (List (κ × β))) :
+    (groupByKeyPar parts).map (encGroup encK encV) =
+      mergeGroups ((parts.map (List.map (encRow encK encV))).map groupRows) :=
+  groupByKeyPar_enc encK encV hinj parts
+
+open IB in
+/-- C13 ("in both execution modes", on the shared engine model): for the plan the builders create for
+    `from_vec(events).group_by_window(size, off)` — `Source → Stateless[map] → GroupByKey`, passed through the planner
+    model `optimise` — and EVERY partition count `n`: whenever the run has no panicking element, `execPar` returns the
+    wire image of `groupByWindow size off (sourceParts xs n)` and `execSeq` that of `groupByWindow size off [xs]`.
+    With `groupByWindow_seq_eq_par` / `groupByWindow_exact`: both engines return the same groups, each exactly the
+    events of its window. -/
+theorem groupByWindow_engine (size off : Nat) (xs : List (Timestamped Int)) (n : Nat) :
+    (∀ gp, groupByWindow size off (sourceParts xs n) = some gp →
+      execPar List.flatten (optimise (mapGbkChain (windowKeyVal size off) (xs.map encEv))) n =
+        pure (encGroups (gp.map (encGroup encW Val.int)))) ∧
+    (∀ gq, groupByWindow size off [xs] = some gq →
+      execSeq (optimise (mapGbkChain (windowKeyVal size off) (xs.map encEv))) =
+        pure (encGroups (gq.map (encGroup encW Val.int)))) :=
+  ⟨fun gp h => enginePlan_par encEv encW Val.int encW_injective _ _ (windowKeyVal_realises size off) xs n gp h,
+   fun gq h => enginePlan_seq encEv encW Val.int encW_injective _ _ (windowKeyVal_realises size off) xs gq h⟩
+
+open IB in
+/-- the keyed variant: `from_vec(rows).group_by_key_and_window(size, off)` on the shared engine model -/
+theorem groupByKeyAndWindow_engine (size off : Nat) (xs : List (Int × Timestamped Int)) (n : Nat) :
+    (∀ gp, groupByKeyAndWindow size off (sourceParts xs n) = some gp →
+      execPar List.flatten (optimise (mapGbkChain (keyWindowKeyVal size off) (xs.map encKEv))) n =
+        pure (encGroups (gp.map (encGroup encKW Val.int)))) ∧
+    (∀ gq, groupByKeyAndWindow size off [xs] = some gq →
+      execSeq (optimise (mapGbkChain (keyWindowKeyVal size off) (xs.map encKEv))) =
+        pure (encGroups (gq.map (encGroup encKW Val.int)))) :=
+  ⟨fun gp h => enginePlan_par encKEv encKW Val.int encKW_injective _ _ (keyWindowKeyVal_realises size off) xs n gp h,
+   fun gq h => enginePlan_seq encKEv encKW Val.int encKW_injective _ _ (keyWindowKeyVal_realises size off) xs gq h⟩
+
+/-- the chains of the two theorems above are the chains `builderChain` gives for `gbw` / `gbkw` on a direct
+    `from_vec` source — the ones whose planned node kinds the driver request `WPLAN` compares with the chain the REAL
+    runner receives (`Source, Stateless1, GroupByKey`) — and the planner model leaves them unchanged -/
+theorem engine_chain_is_builder_chain (size off : Nat) (rows : List IB.Val) :
+    builderChain size off "gbw" "d" rows = some (mapGbkChain (windowKeyVal size off) rows) ∧
+    builderChain size off "gbkw" "d" rows = some (mapGbkChain (keyWindowKeyVal size off) rows) ∧
+    IB.optimise (mapGbkChain (windowKeyVal size off) rows) = mapGbkChain (windowKeyVal size off) rows ∧
+    planKinds size off "gbw" "d" = some ["Source", "Stateless1", "GroupByKey"] :=
+  ⟨rfl, rfl, optimise_mapGbkChain _ _, by
+    have : planKinds size off "gbw" "d" =
+        some ((IB.optimise (mapGbkChain (windowKeyVal size off) [])).map IB.Node.kind) := rfl
+    rw [this, optimise_mapGbkChain]
+    simp only [mapGbkChain, IB.Node.kind, IB.vecSource, IB.gbkNode, List.map_cons, List.map_nil, List.length_cons,
+      List.length_nil]
+    decide⟩
+
+/-- non-vacuity (kernel-evaluated): the hypotheses of the two theorems hold on the design witness (`ts` below the
+    offset, two partitions) -/
+example : groupByWindow 10 25 (sourceParts [⟨7, 70⟩, ⟨27, 71⟩, (⟨8, 72⟩ : Timestamped Int)] 2)
+      = some [(⟨5, 15⟩, [70, 72]), (⟨25, 35⟩, [71])] ∧
+    groupByKeyAndWindow 10 25 [[((1 : Int), ⟨7, 70⟩), (2, ⟨8, 71⟩), (1, (⟨9, 72⟩ : Timestamped Int))]]
+      = some [((1, ⟨5, 15⟩), [70, 72]), ((2, ⟨5, 15⟩), [71])] := by decide
 
 end IB.Window
